@@ -56,9 +56,21 @@ def run(ctx):
             ref = {name: snapshot_field(ref_store, name) for name in ref_store.fields}
             files = [q for q in sorted(root.rglob("*")) if q.is_file() and q.name != "header.txt"]
             if ctx.quick and len(files) > 160:
-                keep = [q for q in files if q.name in ("metadata.json", "chunk_index")]
-                files = r.sample(keep, min(50, len(keep))) + r.sample([q for q in files if q not in keep], 100) + [root / "metadata.json"]
-                files = sorted(set(files))
+                # stratified: per field and partition one chunk index, the first data chunk and two later data chunks (state
+                # carried over from the chunk read before only shows on those), then a random remainder
+                groups = {}
+                for q in files:
+                    if q.name != "metadata.json":
+                        groups.setdefault(q.parent, []).append(q)
+                keep = [root / "metadata.json"]
+                for pdir, qs in sorted(groups.items()):
+                    if r.random() < 0.5 and len(groups) > 30:
+                        continue
+                    idx = [q for q in qs if q.name == "chunk_index"]
+                    data = sorted((q for q in qs if q.name != "chunk_index"), key=lambda q: int(q.name))
+                    keep += idx[:1] + data[:1] + (r.sample(data[1:], min(2, len(data) - 1)) if len(data) > 1 else [])
+                rest = [q for q in files if q not in keep]
+                files = sorted(set(keep + r.sample(rest, max(0, min(len(rest), 160 - len(keep))))))
             enc_budget = ctx.n(6, 60)
             # besides the random sample: one encode probe per field (every array encoder reads a
             # different field), for the first stores
@@ -69,7 +81,7 @@ def run(ctx):
                 if size <= 96 or not ctx.quick and size <= 4096:
                     lengths = list(range(size))
                 else:
-                    lengths = sorted({0, 1, 7, 8, 9, 16, size // 2, size - 9, size - 8, size - 1} | {(r.randrange(size) // 8) * 8 for _ in range(4)} | {r.randrange(size) for _ in range(4)})
+                    lengths = sorted({0, 1, 7, 8, 9, 16, 17, 24, 32, size // 2, size - 9, size - 8, size - 1} | {(r.randrange(size) // 8) * 8 for _ in range(4)} | {r.randrange(size) for _ in range(4)})
                     lengths = [x for x in lengths if 0 <= x < size]
                 kind = "metadata" if q.name == "metadata.json" else ("chunk_index" if q.name == "chunk_index" else "chunk")
                 for L in lengths + [None]:
